@@ -20,7 +20,10 @@ real filters on the simulated ZeroMQ network: setup/process/shutdown/init/fini r
 socket faults are injected into the simulated sockets, exit messages are sent by the neighbours with the real
 MQ.send_exit_msg, the stop event is set from outside, exit_after is configured.  Every ExitProp case (all 16 uniform policy
 pairs x 2 kinds x 3 positions x 3 topologies, plus a sample of the 16^3 mixed assignments) is run on three real filters.
-exit_after is also run on a timed world for seconds / 'm:s' / '@time' forms.  Observed: call log, return vs raise of
+The 288 uniform cases (the property's quantifier: policy PAIRS) are judged strictly, under the prompt schedule and under a seeded
+random schedule; for per-filter assignments (an extension) only spurious terminations and per-filter contracts are verdicts -
+a filter left running there is reported as a finding (ExitProp.tla deviation "oob_read_in_matching_phase": TLC proves that
+policy pairs are not affected by it).  exit_after is also run on a timed world for seconds / 'm:s' / '@time' forms.  Observed: call log, return vs raise of
 Filter.run, sockets left open, stop_evt, exit messages on the wire, neighbours' terminal states, virtual times.
 The property's formulas are evaluated on those observations only (violations); differences to the model are drift.
 """
